@@ -3,6 +3,7 @@ package props
 import (
 	"encoding/json"
 	"fmt"
+	"sync"
 	"testing"
 
 	"pgregory.net/rapid"
@@ -139,6 +140,9 @@ func drawE2E(rt *rapid.T, o gen.HistOpt) *E2ECase {
 		c.StartIdx = 0
 	}
 	c.Pacing = rapid.IntRange(0, 3).Draw(rt, "pacing") / 3 // lock-step for a quarter of the cases
+	if l, err := c.H.Lay(); err == nil && len(l.Events) > 300 {
+		c.Pacing = PaceFarAhead // lock-step over thousands of packets would take seconds
+	}
 	return c
 }
 
@@ -146,7 +150,20 @@ func TestC01(t *testing.T) {
 	rec := recorder("C01")
 	defer rec.Flush(t)
 	o := gen.DefaultHistOpt(limits(), thorough())
+	po := o
+	po.MaxUnits, po.MaxTables, po.Scale = 5, 3, false
+	po.Col = gen.ColumnOpt{NoHeavy: true}
 	rapidCheck(t, func(rt *rapid.T) {
+		if rapid.IntRange(0, 19).Draw(rt, "part_parallel") == 0 {
+			// 2-4 streamers, each with its own history, run at the same time in this process
+			pc := drawParallelE2E(rt, po)
+			rec.Case(true, pc, "parallel-streamers")
+			if err := checkParallelE2E(pc); err != nil {
+				rec.Violation("c01par", pc, "", err)
+				rt.Fatalf("C01 violation: %v", err)
+			}
+			return
+		}
 		c := drawE2E(rt, o)
 		l, start, su, err := c.layout()
 		if err != nil {
@@ -179,5 +196,52 @@ func TestC01(t *testing.T) {
 			rec.Violation("c01", c, "", err)
 			rt.Fatalf("C01 violation: %v", err)
 		}
+	})
+}
+
+// ParallelE2E: several generated histories streamed at the same time by separate streamers.
+type ParallelE2E struct{ Cases []*E2ECase }
+
+func checkParallelE2E(c *ParallelE2E) error {
+	errs := make([]error, len(c.Cases))
+	var wg sync.WaitGroup
+	for i := range c.Cases {
+		wg.Add(1)
+		go func(i int) {
+			defer wg.Done()
+			cc := *c.Cases[i]
+			cc.Pacing = PaceFarAhead // quiescence probing assumes one stream at a time
+			errs[i] = checkC01(&cc)
+		}(i)
+	}
+	wg.Wait()
+	for i, err := range errs {
+		if err != nil {
+			return fmt.Errorf("stream %d of %d running in parallel: %v", i, len(c.Cases), err)
+		}
+	}
+	return nil
+}
+
+func drawParallelE2E(rt *rapid.T, o gen.HistOpt) *ParallelE2E {
+	pc := &ParallelE2E{}
+	for i, n := 0, rapid.IntRange(2, 4).Draw(rt, "par_streams"); i < n; i++ {
+		pc.Cases = append(pc.Cases, drawE2E(rt, o))
+	}
+	return pc
+}
+
+func init() {
+	registerReplay("c01par", func(raw json.RawMessage) error {
+		var c ParallelE2E
+		if err := json.Unmarshal(raw, &c); err != nil {
+			return err
+		}
+		for i := 0; i < 20; i++ { // schedule dependent
+			if err := checkParallelE2E(&c); err != nil {
+				return err
+			}
+		}
+		return nil
 	})
 }
